@@ -181,8 +181,11 @@ void ezc3d::c3d::readParam(unsigned int dataLenghtInBytes, const std::vector<siz
                        std::vector<int> &param_data, size_t currentIdx)
 {
     for (size_t i = 0; i < dimension[currentIdx]; ++i)
-        if (currentIdx == dimension.size()-1)
+        if (currentIdx == dimension.size()-1){
             param_data.push_back (readInt(dataLenghtInBytes*ezc3d::DATA_TYPE::BYTE));
+            if (eof())
+                throw std::ios_base::failure("Unexpected end of file while reading a parameter");
+        }
         else
             readParam(dataLenghtInBytes, dimension, param_data, currentIdx + 1);
 }
@@ -191,8 +194,11 @@ void ezc3d::c3d::readParam(const std::vector<size_t> &dimension,
                        std::vector<float> &param_data, size_t currentIdx)
 {
     for (size_t i = 0; i < dimension[currentIdx]; ++i)
-        if (currentIdx == dimension.size()-1)
+        if (currentIdx == dimension.size()-1){
             param_data.push_back (readFloat());
+            if (eof())
+                throw std::ios_base::failure("Unexpected end of file while reading a parameter");
+        }
         else
             readParam(dimension, param_data, currentIdx + 1);
 }
@@ -242,8 +248,11 @@ void ezc3d::c3d::_readMatrix(const std::vector<size_t> &dimension,
                        std::vector<std::string> &param_data, size_t currentIdx)
 {
     for (size_t i = 0; i < dimension[currentIdx]; ++i)
-        if (currentIdx == dimension.size()-1)
+        if (currentIdx == dimension.size()-1){
             param_data.push_back(readString(ezc3d::DATA_TYPE::BYTE));
+            if (eof())
+                throw std::ios_base::failure("Unexpected end of file while reading a parameter");
+        }
         else
             _readMatrix(dimension, param_data, currentIdx + 1);
 }
